@@ -36,7 +36,8 @@ CLAUSES = {
     "StepWithinFixedStep": ("C04",),
     "FixedStepIsConfiguredStep": ("C04", "C06", "C20"),
     "StepNotPastTf": ("C04",),
-    "RejectedStepRestoresState": ("C04", "C17"),      # C17: no partially updated state is presented as a solution
+    "RejectedStepRestoresState": ("C04", "C17"),
+    "RejectedStepGivesTimeBack": ("C04", "C06", "C17"),      # C17: no partially updated state is presented as a solution
     "AcceptedStepWithinTol": ("C04",),
     "AcceptedStepSatisfiesImplicitRule": ("C04", "C09"),
     "StepUsesCurrentTimeConstants": ("C04",),
